@@ -4,6 +4,7 @@ import fcntl
 import hashlib
 import json
 import os
+import re
 import shutil
 import subprocess
 import sys
@@ -925,6 +926,57 @@ class Facts:
                     texts = {c: aliases.rewrite_text(t, adt_map, fn_map) for c, t in texts.items()}
                     self._load(texts, crates)
                     self.alias_map = {"types": adt_map, "functions": fn_map}
+        self.inlined = {}
+        if use_aliases and os.environ.get("VERIF_NO_INLINE") != "1":
+            self._inline_new_helpers()
+
+    def _inline_new_helpers(self):
+        """functions that the tree the rules were written against did not have (rules/known_fns.json) and that are small,
+        non-recursive, closure-free and do not return a Result are spliced into their callers (rules/inline.py): a few lines
+        moved into a new private helper are judged where they used to be.  Helpers that are no longer referenced afterwards are
+        dropped from the function table."""
+        import inline
+
+        known = inline.load_known()
+        if known is None:
+            return
+        import aliases
+
+        anchors = aliases.referenced_names()
+        def fam(i):
+            return re.sub(r"@.*$", "", i)
+        new = set()
+        for i, b in self.bodies.items():
+            if b.kind == "Closure" or b.derived or "::tests::" in i or "::test::" in i or fam(i) in known or i in anchors:
+                continue
+            if b.n > inline.MAX_BLOCKS or b.local_ty(0).startswith("core::result::Result<") or b.impl_trait:
+                continue
+            if any(o.startswith(i + "::{closure") for o in self.bodies):
+                continue
+            new.add(i)
+        if not new:
+            return
+        callers = {i for i, b in self.bodies.items() if "::tests::" not in i and any((t.get("callee") or "") in new for _b, t in b.calls())}
+        f2, report = inline.inline_into(self, callers, lambda h: h.id in new)
+        self.bodies = f2.bodies
+        self._callers = None
+        self._trait_impls = None
+        self.inlined = report
+        # drop helpers nothing refers to any more
+        still = set()
+        for b in self.bodies.values():
+            for _bb, t in b.calls():
+                c = t.get("callee") or ""
+                if c in new:
+                    still.add(c)
+        text_refs = None
+        for h in sorted(new - still):
+            if text_refs is None:
+                text_refs = "\n".join(json.dumps(b.j.get("blocks")) for i, b in self.bodies.items() if i not in new)
+            # function items used as values (`map(Self::helper)`) keep the helper alive
+            if ('"%s"' % h) in text_refs.replace('"inlined": "%s"' % h, "").replace('"inl": "%s"' % h, ""):
+                continue
+            del self.bodies[h]
 
     def _load(self, texts, crates):
         self.bodies = {}
